@@ -255,7 +255,17 @@ def r4(prog, rep):
     fl = list(er.calls("entropy_read_fill"))
     ok = len(fl) == 1 and [sh(norm(a)) for a in fl[0].args][1:] == [er.params[0]["name"], er.params[1]["name"]]
     if ok:
-        ok = any((Le.strip() if Le is not None else None) is fl[0] and op == "!=" for b in er.blocks.values() if b.cond is not None for op, L, R, Le, Re in cond_atoms(b.cond, True))
+        # the failing edge of the fill reaches only failure returns (a warning and a fall-through into `return 0` hands the
+        # caller an unfilled buffer as if it were entropy)
+        ok = False
+        for b in er.blocks.values():
+            if b.cond is None or len(b.succs) != 2:
+                continue
+            for truth, succ in ((True, b.succs[0]), (False, b.succs[1])):
+                for op, L, R, Le, Re in cond_atoms(b.cond, truth):
+                    if (Le.strip() if Le is not None else None) is fl[0] and op == "!=" and R == ("c", 0) and succ is not None:
+                        vals, _ = er.returns_from(succ)
+                        ok = bool(vals) and all(v == ("c", -1) for v in vals)
     rets = sorted(set(norm(r.kid(0))[1] for r in er.returns()))
     rep.check(ok and rets == [-1, 0], "R4-fill", "entropy_read fills the caller's whole buffer or fails", er.loc, "", function=er.name, construct="entropy_read")
 
